@@ -180,9 +180,15 @@ func (c Case) keyStrings() []string {
 	return vk.Strings(c.Keys)
 }
 
+var scratch vk.Scratch
+
 func check(c Case) *vk.Failure {
 	keys := c.keyStrings()
 	orig := c.keyStrings()
+	reused := c.Big == nil && scratch.Reuse(vk.SumStrings(orig))
+	if reused {
+		keys = scratch.Strings(orig) // every other case: the same backing array as earlier calls, other keys
+	}
 	var ds []int32
 	if f := vk.Try(fmt.Sprintf("FirstDiffBits(%x)", keys), func() { ds = sigbits.FirstDiffBits(keys) }); f != nil {
 		return f
@@ -236,6 +242,11 @@ func check(c Case) *vk.Failure {
 	for i := range keys {
 		if keys[i] != orig[i] {
 			return vk.Failf("mutates", "key %d changed", i)
+		}
+	}
+	if reused {
+		if msg := scratch.Check(); msg != "" {
+			return vk.Failf("argument-spare-capacity-written", "%s", msg)
 		}
 	}
 	return nil
